@@ -17,7 +17,7 @@ CLAIM = ("Metamorphic check on the real binary: every accepted grammar (bundled 
          "under every permutation of the statements that keeps the call variants in order, when no name is defined twice) and "
          "defn_order_irrelevant (hence, through C02's validation_is_meaning, the model of check.rs returns the same validated expression for "
          "two such grammars whenever it accepts both), and span_irrelevant_meaning. The layout half is proved on the operator ladder: layout_irrelevant (Proofs/LadderLayout.lean) — two texts of one "
-         "expression tree (literals, nonterminals, commands, juxtaposition by blanks, |, ||, [ ], postfix ..., parentheses) that differ only in the blanks, line breaks, form feeds and closed # comments standing at each position between the tokens are parsed by the model of fallback_expr into trees that differ in spans only — with span_irrelevant_meaning, into the same meaning; grammar_layout_irrelevant (Proofs/Statements.lean) — the same for whole files: two texts of one list of statements over the operator ladder that differ in the layout at the beginning of the file, after statement names, around ::= / = (and in the choice of sign), inside expressions, before ;, between statements and in the presence of the final ; parse to grammars equal up to spans. Outside that fragment (descriptions, escapes, juxtaposition inside words, redundant parentheses) the layout half is explored, not proved, so the level "
+         "expression tree (literals, nonterminals, commands, juxtaposition by blanks, |, ||, [ ], postfix ..., parentheses) that differ only in the blanks, line breaks, form feeds and closed # comments standing at each position between the tokens are parsed by the model of fallback_expr into trees that differ in spans only — with span_irrelevant_meaning, into the same meaning; grammar_layout_irrelevant (Proofs/Statements.lean) — the same for whole files: two texts of one list of statements over the operator ladder that differ in the layout at the beginning of the file, after statement names, around ::= / = (and in the choice of sign), inside expressions, before ;, between statements and in the presence of the final ; parse to grammars equal up to spans; the texts this Lean printer produces for generated grammars, plainly and under 3 admissible layouts drawn from a seed, are compiled by the real binary on every run and must give byte-identical scripts. Outside that fragment (descriptions, escapes, juxtaposition inside words, redundant parentheses) the layout half is explored, not proved, so the level "
          "claimed for the property as a whole stays exploration.")
 NOTE = ("The order half is a theorem over the model of check.rs (tied to the library on every C02/C08/C15 run); the layout half is a theorem on whole files over the operator ladder and exploration elsewhere. Trusted: the tokeniser that decides where layout may be inserted (inserting "
         "layout where the syntax forbids it would change the meaning and raise a false alarm; it is restricted to the places listed).")
@@ -195,6 +195,26 @@ def run(ctx, proof):
         g = gen.Gen(rng, max_depth=rng.choice([2, 3, 4]), p_sub=0.2, p_descr=0.3)
         parts = g.grammar_parts()
         groups.append((f"rnd{i}", variants_of(rng, parts)))
+    # the layouts of the theorem (grammar_layout_irrelevant): grammars over the operator ladder printed by the Lean
+    # printer of Proofs/Statements.lean plainly and under 3 admissible layouts drawn from a seed
+    from . import c05
+    frag = [t for t in gen.small_exprs(4) if c05.in_ladder_fragment(t)]
+    reqs, owner = [], []
+    for i in range(600 if ctx.thorough() else 40):
+        vs = [rng.choice(frag) for _ in range(rng.choice([1, 1, 2]))]
+        ds = [(f"N{j}", None, rng.choice(frag)) for j in range(rng.choice([0, 1, 2]))]
+        wire = c05.spanned_grammar_wire(vs, ds)
+        for sd in [0] + [rng.randrange(1, 10 ** 6) for _ in range(3)]:
+            reqs.append(f"ppgram {sd} {wire}")
+            owner.append(i)
+    texts = {}
+    for i, a in zip(owner, core.driver_parallel(reqs)):
+        if a.startswith("ok "):
+            texts.setdefault(i, []).append(core.unhexs(a[3:]))
+        else:
+            ctx.correspondence_breaks.append(("lean-layout-printer", {"answer": a[:200]}))
+    for i, ts in sorted(texts.items()):
+        groups.append((f"lean{i}", [("original", ts[0])] + [("lean-layout", t) for t in ts[1:]]))
     jobs, meta = [], []
     for gi, (name, vs) in enumerate(groups):
         for vi, (ops, text) in enumerate(vs):
